@@ -1708,3 +1708,61 @@ Proof.
   split; [now apply gosort_sorter_ok|]. split; [now apply host_lists_ok|].
   split; reflexivity.
 Qed.
+
+(* ------------------------------------------------------------------ the host order the code uses now *)
+
+Lemma ins_rev_perm : forall (A : Type) (less : A -> A -> bool) x racc,
+  Permutation (ins_rev less x racc) (x :: racc).
+Proof.
+  intros A less x. induction racc as [|y r IH]; cbn [ins_rev]; auto.
+  destruct (less x y); auto. eapply perm_trans; [apply perm_skip, IH | apply perm_swap].
+Qed.
+
+Lemma gosort_perm : forall (A : Type) (less : A -> A -> bool) l, Permutation (gosort less l) l.
+Proof.
+  intros A less l. unfold gosort.
+  assert (G : forall l racc, Permutation (fold_left (fun r x => ins_rev less x r) l racc) (l ++ racc)).
+  { induction l0 as [|x l0 IH]; intros racc; cbn [fold_left app]; auto.
+    eapply perm_trans; [apply IH|]. eapply perm_trans; [apply Permutation_app_head, ins_rev_perm|].
+    symmetry. apply Permutation_middle. }
+  eapply perm_trans; [symmetry; apply Permutation_rev|]. specialize (G l []). now rewrite app_nil_r in G.
+Qed.
+
+Lemma dedup_spec : forall l seen,
+  NoDup (dedup seen l) /\ forall x, In x (dedup seen l) <-> In x l /\ ~ In x seen.
+Proof.
+  induction l as [|y l IH]; intros seen; cbn [dedup].
+  - split; [constructor|]. intro x. cbn. tauto.
+  - destruct (existsb (str_eqb y) seen) eqn:E.
+    + destruct (IH seen) as [N M]. split; auto. intro x. rewrite M. cbn [In].
+      apply existsb_exists in E as [z [Iz Ez]]. apply str_eqb_eq in Ez. subst z.
+      split; [tauto|]. intros [[->|I] Ns]; [contradiction | tauto].
+    + destruct (IH (y :: seen)) as [N M].
+      assert (Ny : ~ In y seen).
+      { intro I. assert (existsb (str_eqb y) seen = true) by (apply existsb_exists; exists y; split; auto; apply str_eqb_refl).
+        congruence. }
+      split.
+      * constructor; auto. rewrite M. cbn [In]. tauto.
+      * intro x. cbn [In]. rewrite M. cbn [In]. split.
+        -- intros [<-|[I Ns]]; [tauto|]. split; [tauto|]. intro Q. apply Ns. now right.
+        -- intros [[<-|I] Ns]; [now left|]. destruct (list_eq_dec ascii_dec y x) as [->|Nx]; [now left|].
+           right. split; auto. intros [Q|Q]; auto.
+Qed.
+
+Lemma sorted_hosts_ok : forall entries, host_order_ok (sorted_hosts entries) entries.
+Proof.
+  intro entries. unfold sorted_hosts. destruct (dedup_spec (map ehost entries) []) as [N M]. split.
+  - eapply Permutation_NoDup; [symmetry; apply gosort_perm | exact N].
+  - intros e I. eapply Permutation_in; [symmetry; apply gosort_perm|]. apply M. split; [now apply in_map | auto].
+Qed.
+
+Theorem rebuild_current_precedence : forall tree mo feds,
+  forallb wf_fed feds = true -> permitted mo ->
+  forall host path, wf_request host path ->
+  match lookup tree (rebuild_current mo (map add feds)) (sample host path) with
+  | Some v => exists r, best (map rule_of feds) host path r /\ rtarget r = v
+  | None => forall r, In r (map rule_of feds) -> ~ applies r host path
+  end.
+Proof.
+  intros tree mo feds Hwf Hmo. unfold rebuild_current. apply rebuild_precedence; auto. apply sorted_hosts_ok.
+Qed.
